@@ -122,8 +122,8 @@ func genFileCase(c *Ctx) (*fileCase, *Violation) {
 	// now and then a file of several KB whose text is dense in multi-byte characters: document
 	// and character boundaries then fall on every offset, including multiples of 512 and 4096
 	bigEvery := 200
-	if c.Tier == "thorough" {
-		bigEvery = 40
+	if c.Tier == "thorough" || diskRealMode {
+		bigEvery = 40 // (the real-file mode runs a twelfth of the cases)
 	}
 	fc.big = t.Draw(bigEvery) == bigEvery-1
 	if fc.big {
@@ -598,7 +598,7 @@ func init() {
 		Level: "fault_enumeration",
 		Cases: func(tier string) int {
 			if tier == "thorough" {
-				return 4000000
+				return 2000000
 			}
 			return 100000
 		},
